@@ -128,7 +128,7 @@ CLAIMS = {
             "inverse, four-bit and total; the compact format's tag ranges are ordered, 9 wide, disjoint and contiguous; the "
             "descending byte map is an involution that keeps the continuation bit and reverses data-bit order (its prefix-order "
             "clause fails: known finding F14); the sign-offset mapping of i32 / i64 is strictly increasing from signed to unsigned order on every "
-            "value and decode is its inverse (tabulated, not sampled); the compact format's width table is exact.  tuple_key2's byte-string framing is written and read by one table (a NUL and only a NUL is followed by the escape, 00 00 ends the element, the reader undoes exactly that).  Order preservation in general, prefix contiguity and value round-trip are NOT "
+            "value and decode is its inverse (tabulated, not sampled); the compact format's width table is exact.  tuple_key2's byte-string framing is written and read by one table (a NUL and only a NUL is followed by the escape, 00 00 ends the element, the reader undoes exactly that).  A descending element is inverted whatever its length (the empty string included).  Order preservation in general, prefix contiguity and value round-trip are NOT "
             "decided.", "§4 C16, §10"),
     "C10": ("ORDER/MUSTPASS/SIBLINGS over builder put/del/seal, ORIGIN of index keys and final-block fields, maximum encoded sizes computed from field tables of the expanded derives vs. evaluated size constants; path-wise comparison-guard proof for divide_keys",
             "Decides builder gates and format tables: length/size/sort-order gates precede every mutation and agree between put "
